@@ -71,11 +71,11 @@ def r1_siblings(ctx):
             b = F.bodies_with("de::IoReader", "XmlRead", end=meth)
             if len(a) == 1 and len(b) == 1:
                 sa, sb = shape(a[0]), shape(b[0])
-                ctx.ob("R1", "%s:siblings-agree" % meth, sa == sb and all(not st for _, _, st in sa | sb),
-                       "SliceReader::%s and IoReader::%s must make the same calls and write no reader state of their own (the start-trimming state in particular belongs to next()): slice %s, io %s" % (meth, meth, sorted(sa), sorted(sb)), config=cfg)
+                ctx.ob("R1", "%s:siblings-agree" % meth, sa == sb,
+                       "SliceReader::%s and IoReader::%s must make the same calls and the same writes to their own state (in particular both or neither bring the start-trimming state up to date): slice %s, io %s" % (meth, meth, sorted(sa), sorted(sb)), config=cfg)
             else:
                 ctx.ob("R1", "%s:siblings-agree" % meth, False, "anchor-missing", config=cfg)
-        # who may write the start-trimmer state: only StartTrimmer::trim (through &mut self) and the constructors
+        # who may write the start-trimmer state: StartTrimmer::trim (through &mut self), the skip of both readers, the constructors
         writers = set()
         for body in F.bodies:
             if "src/de/" not in body.span(body.j["span"])["root"]:
@@ -83,8 +83,8 @@ def r1_siblings(ctx):
             for _, st in body.stmts():
                 pl = st.get("p")
                 if pl and any(isinstance(e, dict) and e.get("n") in ("start_trimmer", "trim_start") for e in pl[1]):
-                    writers.add(sym.short(strip_generics(body.path)))
-        ctx.ob("R1", "start_trimmer:writers", writers <= {"StartTrimmer::trim"}, "the start-trimming state is updated only by StartTrimmer::trim: %s" % sorted(writers), config=cfg)
+                    writers.add(sym.short(strip_generics(body.path)).split("::")[-1])
+        ctx.ob("R1", "start_trimmer:writers", writers <= {"trim", "read_to_end"}, "the start-trimming state is updated only by StartTrimmer::trim and by the skip of the two readers: %s" % sorted(writers), config=cfg)
         # constructors
         cons = {}
         for b in F.bodies:
